@@ -387,22 +387,37 @@ class Check(PropCheck):
             chg[first] = m[first] + 'x'
             if e.style == render_style(chg):
                 return ('equality', '%s: style %r equals %r' % (where, text, render_style(chg)))
-        # copying a style between elements never aliases them
-        a = fresh()
-        b = AHP.AdvancedTag('span')
-        b.style = a.style
-        if str(b.style) != text and in_dom:
-            return ('copy', '%s: b.style = a.style gives %r from %r' % (where, str(b.style), text))
-        tb = str(b.style)
-        b.style.zIndex = '7'
-        b.setStyle('display', 'zzz')
-        if str(a.style) != text or a.getStartTag() != html:
-            return ('aliased', '%s: writing to the copy changed the source: %r' % (where, a.getStartTag()))
-        a.style.opacity = '0'
-        a.style = 'top: 1px'
-        mb = parse_style(str(b.style))
-        if 'opacity' in mb or 'top' in mb or mb.get('z-index') != '7' or mb.get('display') != 'zzz':
-            return ('aliased', '%s: writing to the source changed the copy: %r' % (where, str(b.style)))
-        if b.hasAttribute('style') is not True or ('style="' not in b.getStartTag()):
-            return ('aliased', '%s: the copy is not attached to its own element: %r' % (where, b.getStartTag()))
+        # copying a style between elements never aliases them — whatever the receiving element is: a new element, a
+        # clone / copy of the source, or its unpickled copy (which has the source's uid and compares equal to it)
+        import copy as _copy
+        import pickle as _pickle
+        for kind in ('new', 'unpickled', 'clone', 'deepcopy', 'unpickled-setAttribute'):
+            a = fresh()
+            if kind == 'new':
+                b = AHP.AdvancedTag('span')
+            elif kind.startswith('unpickled'):
+                if AC.is_void(d['tag']):
+                    continue
+                b = _pickle.loads(_pickle.dumps(a, 2))
+            elif kind == 'clone':
+                b = a.cloneNode()
+            else:
+                b = _copy.deepcopy(a)
+            if kind.endswith('setAttribute'):
+                b.setAttribute('style', a.style)
+            else:
+                b.style = a.style
+            if str(b.style) != text and in_dom:
+                return ('copy', '%s: b.style = a.style (b %s) gives %r from %r' % (where, kind, str(b.style), text))
+            b.style.zIndex = '7'
+            b.setStyle('display', 'zzz')
+            if str(a.style) != text or a.getStartTag() != html:
+                return ('aliased', '%s: writing to the copy (%s) changed the source: %r' % (where, kind, a.getStartTag()))
+            a.style.opacity = '0'
+            a.style = 'top: 1px'
+            mb = parse_style(str(b.style))
+            if 'opacity' in mb or 'top' in mb or mb.get('z-index') != '7' or mb.get('display') != 'zzz':
+                return ('aliased', '%s: writing to the source changed the copy (%s): %r' % (where, kind, str(b.style)))
+            if b.hasAttribute('style') is not True or ('style="' not in b.getStartTag()):
+                return ('aliased', '%s: the copy (%s) is not attached to its own element: %r' % (where, kind, b.getStartTag()))
         return None
